@@ -13,6 +13,10 @@ Configuration (facts re-extracted from the source):
   persistSerialized   a mutex is held across the two `Current()` loads and the save
   persistAfterReserve Reserve happens before persistAllocatorState in AllocID/Tso
   resolveBumps        ResolveAllocatorStarts resumes at checkpoint+1 (saturating at MaxUint64)
+  releasesOnError     AllocID / Tso subtract the reserved count from the counter when the persist fails
+
+Environment: the checkpoint write of any request may fail (`failSave`); the request then answers
+with an error and hands nothing out.
 -/
 import NoKVModel.Conc.Sys
 
@@ -32,12 +36,13 @@ structure AllocCfg where
   persistSerialized : Bool
   persistAfterReserve : Bool
   resolveBumps : Bool
+  releasesOnError : Bool := false   -- a failed persistAllocatorState gives the reserved range back (counter -= n)
   deriving DecidableEq, Repr
 
-def AllocCfg.good : AllocCfg := ⟨true, true, true⟩
+def AllocCfg.good : AllocCfg := ⟨true, true, true, false⟩
 
 def AllocCfg.Good (c : AllocCfg) : Prop :=
-  c.persistSerialized = true ∧ c.persistAfterReserve = true ∧ c.resolveBumps = true
+  c.persistSerialized = true ∧ c.persistAfterReserve = true ∧ c.resolveBumps = true ∧ c.releasesOnError = false
 
 instance AllocCfg.decGood (c : AllocCfg) : Decidable c.Good := by
   unfold AllocCfg.Good; exact inferInstance
@@ -81,6 +86,7 @@ structure Thr where
   last : Nat := 0
   reserved : Bool := false
   rd : Kind → Nat := fun _ => 0
+  failSave : Bool := false       -- environment: this request's checkpoint write fails / has failed
 
 def Thr.rng (t : Thr) : Rng := ⟨t.kind, t.first, t.last⟩
 
@@ -96,6 +102,7 @@ structure St where
 inductive Act where
   | spawn (tid : Nat) (k : Kind) (n : Nat)
   | run (tid : Nat)
+  | failSave (tid : Nat)         -- the storage layer will fail this request's SaveAllocatorState
   | restart
 
 /-- pd/storage/storage.go:ResolveAllocatorStarts, one component -/
@@ -121,11 +128,17 @@ def stepThr (c : AllocCfg) (s : St) (tid : Nat) (t : Thr) : Option St :=
   | .read k =>
     some { s with thr := upd s.thr tid (some { t with pc := next c (.read k), rd := upd t.rd k (s.ctr k) }) }
   | .save =>
-    some { s with ck := t.rd, thr := upd s.thr tid (some { t with pc := next c .save }) }
+    -- SaveAllocatorState: atomically replaces the checkpoint, or fails and leaves it as it was
+    some { s with ck := if t.failSave then s.ck else t.rd, thr := upd s.thr tid (some { t with pc := next c .save }) }
   | .unlock =>
     some { s with mu := none, thr := upd s.thr tid (some { t with pc := next c .unlock }) }
   | .reply =>
-    some { s with replied := t.rng :: s.replied, thr := upd s.thr tid (some { t with pc := .done }) }
+    if t.failSave then
+      -- "persist allocator state: …" error: nothing is handed out; [releasesOnError: counter -= n]
+      some { s with ctr := if c.releasesOnError then upd s.ctr t.kind ((s.ctr t.kind + W - t.n) % W) else s.ctr,
+                    thr := upd s.thr tid (some { t with pc := .done }) }
+    else
+      some { s with replied := t.rng :: s.replied, thr := upd s.thr tid (some { t with pc := .done }) }
   | .done => none
 
 def restartSt (c : AllocCfg) (s : St) : St :=
@@ -139,6 +152,10 @@ def step (c : AllocCfg) (s : St) : Act → Option St
   | .run tid =>
     match s.thr tid with
     | some t => stepThr c s tid t
+    | none => none
+  | .failSave tid =>
+    match s.thr tid with
+    | some t => if t.pc = .done then none else some { s with thr := upd s.thr tid (some { t with failSave := true }) }
     | none => none
   | .restart => some (restartSt c s)
 
